@@ -234,6 +234,45 @@ def relational(rep, tier, rng):
                 if d:
                     viol.append((f"parallel:{name}", f"{name}: trajectory reported under seed {i} by the {workers}-worker run (completion order {got_order}) is not that seed's trajectory ({d})"))
                     break
+    # (7) mixed initial ensemble: a trajectory is a function of its seed and of the member state it starts from
+    try:
+        H, c, psi0 = problem()
+        a_ = psi0
+        b_ = (qutip.basis(2, 1) - a_.overlap(qutip.basis(2, 1)) * a_).unit()
+        rho0 = 0.375 * a_.proj() + 0.625 * b_.proj()
+        seeds = SeedSequence(4242).spawn(9)
+        o = {"progress_bar": "", "keep_runs_results": True, "store_states": True}
+
+        def table(res):
+            out = {}
+            for j in range(len(res.seeds)):
+                s0 = res.runs_states[j][0]
+                member = int(abs(s0.overlap(b_)) > abs(s0.overlap(a_)))
+                out[(seed_key(res.seeds[j]), member)] = traj_sig(res, j)
+            return out
+        r6 = table(qutip.MCSolver(H, c, options=o).run(rho0, TL, ntraj=6, e_ops=eops, seeds=list(seeds[:6])))
+        r9 = table(qutip.MCSolver(H, c, options=o).run(rho0, TL, ntraj=9, e_ops=eops, seeds=list(seeds)))
+        sol = qutip.MCSolver(H, c, options=o)
+        sol.run(rho0, TL, ntraj=4, e_ops=eops, seeds=77)
+        r6b = table(sol.run(rho0, TL, ntraj=6, e_ops=eops, seeds=list(seeds[:6])))
+        with core.time_limit(300):
+            rp = table(qutip.MCSolver(H, c, options=dict(o, map="parallel", num_cpus=2)).run(rho0, TL, ntraj=6, e_ops=eops, seeds=list(seeds[:6])))
+        for tag, other in (("a larger mixed ensemble", r9), ("a used solver object", r6b), ("worker processes", rp)):
+            common = [k for k in r6 if k in other]
+            rep.count("relational-mixed")
+            if tag != "a larger mixed ensemble" and len(common) != len(r6):
+                viol.append(("mixed-allocation:mc", f"mixed initial state: the same seeds are started from other member states when run on {tag}"))
+                continue
+            for k in common:
+                rep.evaluations += 1
+                d = same(r6[k], other[k])
+                if d:
+                    viol.append(("mixed:mc", f"mixed initial state: the trajectory of a (seed, member state) pair differs on {tag} ({d})"))
+                    break
+    except core.CaseTimeout:
+        raise
+    except Exception as e:      # noqa
+        viol.append(("mixed-raises:mc", f"mixed initial state: {type(e).__name__}: {e}"[:200]))
     return viol
 
 
